@@ -339,14 +339,18 @@ def scale_of(o):
 def bad_rows(sp, recs, vals, rp, res, pe, approx):
     """diagnostic classifier (part of the violation signature, not an oracle):
     the observation types whose rows of the dumped design matrix disagree with
-    the reference Jacobian (by more than 2e-3 of the largest entry of the row), and (prefix rhs:) whose
-    right hand sides disagree with  observed - computed(approximate)  by more
-    than 1e-3 mm / cc"""
+    the reference Jacobian (by more than 2e-3 of the largest entry of the row)
+    with the kind of coefficient that is wrong (angle: from / left / right
+    point; other types: h = n,e coefficient, u = up coefficient), and (prefix
+    rhs:) the types whose right hand sides disagree with
+    observed - computed(approximate) by more than 1e-3 mm / cc.
+    Example:  angle:left+zenith:h+rhs:angle"""
     if not pe or not res:
         return "n/a"
     cmap = col_index(res)
     known = set(cmap.values())
     bad = set()
+    badc = {}
     Xa = None
     if approx and all(v is not None for v in approx.values()):
         Xa = {pid: tuple(float(c) for c in v) for pid, v in approx.items()}
@@ -365,14 +369,23 @@ def bad_rows(sp, recs, vals, rp, res, pe, approx):
             nrm = max(abs(v) for v in rw.values()) * sc
             for c in set(got) | set(c for c in rw if c in known):
                 if abs(got.get(c, 0.0) - rw.get(c, 0.0) * sc) > 2e-3 * nrm:
-                    bad.add(o[0])
+                    # which coefficient: for angles the role of the point, otherwise
+                    # horizontal (n,e) or vertical (u) component
+                    if c[0] == "?":
+                        tag = "unmapped-column"
+                    elif o[0] == "angle":
+                        tag = ("from", "left", "right")[R.obs_points(o).index(c[0])]
+                    else:
+                        tag = "h" if c[1] < 2 else "u"
+                    badc.setdefault(o[0], set()).add(tag)
             if f0 is not None:
                 ov = float(vals[i][comp]) * (R.GON if o[0] in R.ANGULAR else 1.0)
                 d = R.obs_diff(o, (ov,), (f0[comp],))[0] * (RAD_TO_CC if o[0] in R.ANGULAR else 1e3)
                 if abs(pe["rhs"][row] - d) > 1e-3:
                     bad.add("rhs:" + o[0])
             row += 1
-    return "+".join(sorted(bad)) if bad else "none"
+    parts = ["%s:%s" % (t, ".".join(sorted(v))) for t, v in sorted(badc.items())] + sorted(bad)
+    return "+".join(parts) if parts else "none"
 
 
 def wls_reference(sp, recs, vals, cl):
